@@ -152,6 +152,8 @@ class Session:
         forms = {'log_like': ll}
         if w is not None:
             forms['weight'] = w
+            if (threads or 0) % 2:
+                forms = {'weight': w, 'log_like': ll}     # buggify: insertion order of the formulas
         d = db.Database('d', t)
         if self.cfg.get('panel'):
             d.panel('grp')
